@@ -8,6 +8,7 @@ pub mod catalogue {
 
 pub mod core_corpus;
 pub mod special;
+pub mod tolerant;
 
 use sbase::Registry;
 
@@ -17,6 +18,7 @@ pub fn registry() -> Registry {
     catalogue::register(&mut reg);
     core_corpus::register(&mut reg);
     special::register(&mut reg);
+    tolerant::register(&mut reg);
     #[cfg(feature = "corpus")]
     {
         c0::register(&mut reg);
